@@ -24,8 +24,8 @@ package types
 //@   ensures nonempty: result.1 == nil ==> result.0 != ""
 //@   ensures named:    authProxyNamed(f)
 //@   ensures unique:   forall a int, b int :: 0 <= a && a < b && b < len(f.AuthProxy.BindList) ==> f.AuthProxy.BindList[a].LocalPort != f.AuthProxy.BindList[b].LocalPort
-//@   ensures ordered:  result.1 == nil ==> forall a int, b int :: 0 <= a && a < b && b < len(proxy.BindList) ==> proxy.BindList[a].LocalPort <= proxy.BindList[b].LocalPort
-//@   ensures alias:    proxy == &f.AuthProxy
+//@   lemma ordered:  result.1 == nil ==> forall a int, b int :: 0 <= a && a < b && b < len(proxy.BindList) ==> proxy.BindList[a].LocalPort <= proxy.BindList[b].LocalPort
+//@   lemma alias:    proxy == &f.AuthProxy
 //@   ensures sorted:   authProxySorted(f)
 //@   ensures bound:    result.1 == nil ==> exists k int :: 0 <= k && k < len(f.AuthProxy.BindList) && f.AuthProxy.BindList[k].AuthBackendName == result.0 && f.AuthProxy.BindList[k].Backend == backend
 //@   ensures full:     result.1 != nil ==> len(f.AuthProxy.BindList) == old(len(f.AuthProxy.BindList))
